@@ -251,19 +251,33 @@ def _lines_match(want, got_lines, line_ok) -> bool:
 def _mk_split_crop(lens, tiers, timeout):
     l0, l1 = lens
 
-    def pre(t0: str, t1: str, length: int, pad: bool, c1: bool) -> bool:
+    def pre(t0: str, t1: str, length: int, pad: bool, c1: bool, nl: bool) -> bool:
         return (len(t0) == l0 and len(t1) == l1 and over(t0, SIGMA_NL) and over(t1, SIGMA_NL)
                 and 0 <= length <= 2 * (l0 + l1) + 1)
 
     @xh("C13-d-split_and_crop_lines-%d%d" % lens, pre=pre, tiers=tiers, timeout=timeout, kind="S", functions=F_SEG,
         stubs=["S1"],
         bounds="2 segments (bold, italic), text lengths %r over Sigma+newline, second segment's control flag symbolic, "
-               "0<=length<=%d, pad symbolic, requested pad style underline" % (lens, 2 * (l0 + l1) + 1))
-    def h(t0: str, t1: str, length: int, pad: bool, c1: bool) -> bool:
+               "0<=length<=%d, pad and include_new_lines symbolic, requested pad style underline; all lines are materialised "
+               "before any is inspected (a line must not change when the next one is produced); with include_new_lines each "
+               "line that ended in a newline carries exactly one trailing newline segment and no other line any"
+               % (lens, 2 * (l0 + l1) + 1))
+    def h(t0: str, t1: str, length: int, pad: bool, c1: bool, nl: bool) -> bool:
         segs = [Segment(t0, S1), Segment(t1, S2, c1)]
-        out = list(Segment.split_and_crop_lines(segs, length, style=SP, pad=pad, include_new_lines=False))
+        out = list(Segment.split_and_crop_lines(segs, length, style=SP, pad=pad, include_new_lines=nl))
         ic, it = _flat(segs)
         want = _split_ref(ic, it)
+        if nl:
+            n_newlines = len([ch for ch in ic if ch == "\n"])
+            stripped = []
+            for i, line in enumerate(out):
+                line = list(line)
+                if i < n_newlines:
+                    if not line or line[-1].text != "\n" or line[-1].is_control:
+                        return False
+                    line.pop()
+                stripped.append(line)
+            out = stripped
         if c1:
             # a control segment is never split and never becomes visible text (it may be dropped together with the
             # part of a line that is cropped away); if it survives it is the same control segment
